@@ -1,9 +1,11 @@
 /* C20 scenario: aws_thread launch / join / at-exit callbacks / managed threads under the controlled scheduler.
  * Scenario lines:
+ *   THREAD <i> <J|M>[<cpu>][n][r<k>] <op> ...   (r<k>: launched on the handle of the joined thread k, without a new init)
  *   THREAD <i> <J|M>[<cpu>][n] <op> ...   defines thread i (joinable or managed; optionally pinned to cpu <cpu> - one that
  *                                 does not exist makes the first pthread_create fail and the library retry unpinned -
  *                                 and/or given a name) and the script its function runs:
- *        A            register one more at-exit callback (numbered 1,2,.. per thread in registration order)
+ *        A[<ms>]      register one more at-exit callback (numbered 1,2,.. per thread in registration order); with <ms> it
+ *                     sleeps that many virtual milliseconds when it runs
  *        N            register an at-exit callback that, when it runs, registers one more
  *        B<n>         aws_thread_call_once on once-flag n with a once-function that registers an at-exit callback for the
  *                     thread it runs on (lazy per-thread initialisation)
@@ -43,10 +45,14 @@ struct tdef {
     struct aws_thread thread;
     int nreg;
     bool defined;
+    int reuse; /* > 0: this (joinable) thread is launched on the handle of thread <reuse>, which has been joined by then - the
+                * handle is initialised once and launched again, the way a stopped and restarted event loop does */
 };
+#define HANDLE(d) ((d)->reuse > 0 ? &T[(d)->reuse].thread : &(d)->thread)
 static struct tdef T[MAXTH];
 struct cbarg {
     int thr, idx;
+    int sleep_ms; /* the callback takes that long (virtual time): clean-up work at thread exit */
 };
 static struct cbarg cbargs[MAXTH][MAXOPS * 2];
 
@@ -62,6 +68,7 @@ static aws_thread_id_t main_id;
 static __thread struct tdef *cur_def;
 static bool once_reg[NONCE + 1]; /* the once-function of flag n also registers an at-exit callback for its thread */
 static void register_cb(struct tdef *d, bool nested);
+static __thread int pending_cb_sleep; /* op A<ms>: the next callback registered by this thread sleeps that long when it runs */
 static void once_fn(void *ud) {
     int n = (int)((int *)ud - once_tag);
     vh_begin("OnceRan");
@@ -95,6 +102,9 @@ static void at_exit_cb(void *ud) {
     vh_int("idx", a->idx);
     vh_int("on", vs_self());
     vh_end();
+    if (a->sleep_ms > 0) {
+        aws_thread_current_sleep((uint64_t)a->sleep_ms * 1000000ull);
+    }
 }
 
 /* a callback that registers one more callback while the callbacks are being run */
@@ -110,6 +120,8 @@ static void register_cb(struct tdef *d, bool nested) {
     int idx = ++d->nreg;
     cbargs[d->id][idx].thr = d->id;
     cbargs[d->id][idx].idx = idx;
+    cbargs[d->id][idx].sleep_ms = pending_cb_sleep;
+    pending_cb_sleep = 0;
     int rc = aws_thread_current_at_exit(nested ? at_exit_nest_cb : at_exit_cb, &cbargs[d->id][idx]);
     vh_begin("AtExitReg");
     vh_int("thr", d->id);
@@ -129,6 +141,7 @@ static void thread_fn(void *arg) {
     for (int i = 0; i < d->nops; ++i) {
         const char *op = d->ops[i];
         if (op[0] == 'A') {
+            pending_cb_sleep = atoi(op + 1); /* "A" = 0 */
             register_cb(d, false);
         } else if (op[0] == 'N') {
             register_cb(d, true);
@@ -174,7 +187,7 @@ static void thread_fn(void *arg) {
                 continue;
             }
             VS_TSAN_ACQUIRE(&launched[d->id]);
-            int rc = aws_thread_join(&d->thread);
+            int rc = aws_thread_join(HANDLE(d));
             vh_begin("SelfJoin");
             vh_int("thr", d->id);
             vh_int("rc", rc);
@@ -189,7 +202,7 @@ static void thread_fn(void *arg) {
             aws_high_res_clock_get_ticks(&t1);
             vh_begin("SelfView");
             vh_int("thr", d->id);
-            vh_int("ideq", aws_thread_thread_id_equal(me, aws_thread_get_id(&d->thread)));
+            vh_int("ideq", aws_thread_thread_id_equal(me, aws_thread_get_id(HANDLE(d))));
             vh_int("idmain", aws_thread_thread_id_equal(me, main_id));
             vh_int("named", d->named);
             vh_int("nameok", nrc == 0 && nm != NULL && aws_string_eq_c_str(nm, "verif-thread"));
@@ -211,18 +224,20 @@ static void launch(int j) {
     if (d->named) {
         opt.name = aws_byte_cursor_from_c_str("verif-thread");
     }
-    aws_thread_init(&d->thread, vh_alloc());
+    if (d->reuse <= 0) {
+        aws_thread_init(&d->thread, vh_alloc());
+    }
     vh_begin("Launch");
     vh_int("thr", j);
     vh_str("kind", d->managed ? "managed" : "manual");
     vh_end();
-    int rc = aws_thread_launch(&d->thread, thread_fn, d, &opt);
+    int rc = aws_thread_launch(HANDLE(d), thread_fn, d, &opt);
     VS_TSAN_RELEASE(&launched[j]);
     __atomic_store_n(&launched[j], 1, __ATOMIC_RELEASE); /* the handle is complete: only now may the thread itself look at it */
     vh_begin("LaunchRet");
     vh_int("thr", j);
     vh_int("rc", rc);
-    vh_int("detach", rc == 0 ? (int)aws_thread_get_detach_state(&d->thread) : -1);
+    vh_int("detach", rc == 0 ? (int)aws_thread_get_detach_state(HANDLE(d)) : -1);
     vh_end();
 }
 
@@ -243,6 +258,7 @@ static void scenario(char **lines, int nlines) {
             d->managed = kind[0] == 'M';
             d->cpu = (kind[1] >= '0' && kind[1] <= '9') ? atoi(kind + 1) : -1;
             d->named = strchr(kind, 'n') != NULL;
+            d->reuse = strchr(kind, 'r') ? atoi(strchr(kind, 'r') + 1) : 0;
             for (char *o = strtok_r(NULL, " ", &save); o && d->nops < MAXOPS; o = strtok_r(NULL, " ", &save)) {
                 strncpy(d->ops[d->nops++], o, 7);
             }
@@ -293,12 +309,20 @@ static void scenario(char **lines, int nlines) {
             launch(atoi(op + 1));
         } else if (op[0] == 'J') {
             int j = atoi(op + 1);
-            int rc = aws_thread_join(&T[j].thread);
+            int rc = aws_thread_join(HANDLE(&T[j]));
             vh_begin("JoinRet");
             vh_int("thr", j);
             vh_int("rc", rc);
             vh_end();
-            aws_thread_clean_up(&T[j].thread);
+            {
+                bool again = false; /* a handle that will be launched again is not cleaned up in between */
+                for (int q = 0; q < MAXTH; ++q) {
+                    again |= T[q].defined && T[q].reuse == (T[j].reuse > 0 ? T[j].reuse : j) && q != j && !launched[q];
+                }
+                if (!again) {
+                    aws_thread_clean_up(HANDLE(&T[j]));
+                }
+            }
         } else if (op[0] == 'P') {
             vs_point();
         } else if (op[0] == 'O') {
